@@ -333,6 +333,14 @@ def _entry(name, mod, kinds):
                 out["understood_spelling_returned_unchanged"] = result is log[0][3] and len(log) == 1
             else:
                 out["fallback_resubmits_at_most_once"] = len(log) <= 2
+                if len(log) == 2 and kind == "arrow":
+                    # (the geopandas branch - an opaque `== "geometry"` on a foreign dtype - re-submits the object itself)
+                    out["arrow_dtype_resubmitted_as_its_pyarrow_type"] = log[1][1] is data_type.attrs.get("pyarrow_dtype") or log[1][1] is data_type
+                if len(log) == 2 and kind == "extension_class":
+                    x2 = log[1][1]
+                    out["extension_class_resubmitted_as_its_default_instance"] = (isinstance(x2, Obj) and x2.cls is data_type and not x2.pre) or isinstance(x2, data_type)
+                if len(log) == 2 and kind in ("alias", "native") and name in ("numpy", "polars"):
+                    out["resubmitted_value_is_derived_from_the_library_conversion_of_the_input"] = not isinstance(log[1][1], (type, str)) and log[1][1] is not data_type
                 if len(log) == 2 and log[1][2] == "ret":
                     out["fallback_answer_is_the_generic_resolution_of_the_normalised_type"] = result is log[1][3]
                 else:
